@@ -58,8 +58,10 @@ func (s *state) Persistent() types.PersistentState {
 }
 
 func (s *state) getLog(index uint64) (*types.PooledBuffer, error) {
-	// Check the tail writer first
-	if s.tail != nil {
+	// Check the tail writer first. It serves every index it has committed since
+	// its BaseIndex and doesn't know about head truncations inside its own
+	// segment, so bound the lookup by the MinIndex recorded in the state.
+	if ti := s.getTailInfo(); s.tail != nil && (ti == nil || index >= ti.MinIndex) {
 		raw, err := s.tail.GetLog(index)
 		if err != nil && err != ErrNotFound {
 			// Return actual errors since they might mask the fact that index really
